@@ -218,7 +218,7 @@ def run(ctx, rep, tier):
     s = arm_src("regex_group")
     rep.check("RegexSequence(" in s and "regex_tree.children" in s, "C07.e", "RegexMatch._interpret_parse_tree", "sequence over all elements in order", "sequence construction changed")
     rs = ast.unparse(model.func("RegexSequence.__init__"))
-    rep.check("self.sub_matches = list(sub_matches)" in rs, "C07.e", "RegexSequence.__init__", "sequence keeps order", "RegexSequence no longer keeps its elements in order")
+    rep.check(model.has("RegexSequence.__init__", "self.sub_matches = list(sub_matches)"), "C07.e", "RegexSequence.__init__", "sequence keeps order", "RegexSequence no longer keeps its elements in order")
 
     # ------------------------------------------------------------------ C07.f atoms and ranges
     rep.rule("C07.f", "set ranges include both end points; raw / escaped / binary atoms denote their byte")
@@ -233,8 +233,8 @@ def run(ctx, rep, tier):
         rep.check("incoming_set = incoming_set.union(new_set)" in src and "incoming_set.invert()" in src and re.search(r"inverted = regex_tree\.data != '(binary_)?regex_set'", src) is not None,
                   "C07.f", cls + "._visit_all_char_classes", "set = union of its elements; [^..] inverts it", "set accumulation changed")
     ru = ast.unparse(model.func("RegexMatch._convert_raw_regex_unimportant"))
-    rep.check("regex_tree.value[0] == '\\\\'" in ru and "RegexCharClass((regex_tree.value[1],))" in ru and "RegexCharClass((regex_tree.value[0],))" in ru, "C07.f",
+    rep.check(model.has("RegexMatch._convert_raw_regex_unimportant", "regex_tree.value[0] == '\\\\'") and model.has("RegexMatch._convert_raw_regex_unimportant", "RegexCharClass((regex_tree.value[1],))") and model.has("RegexMatch._convert_raw_regex_unimportant", "RegexCharClass((regex_tree.value[0],))"), "C07.f",
               "RegexMatch._convert_raw_regex_unimportant", "escaped char -> the char after the backslash, else the char", "raw regex atom decoding changed")
     bu = ast.unparse(model.func("BinaryRegexMatch._convert_raw_regex_unimportant"))
-    rep.check("RegexCharClass((chr(int(byte.value, base=16)),))" in bu, "C07.f", "BinaryRegexMatch._convert_raw_regex_unimportant", "hex pair -> that byte", "binary regex byte decoding changed")
+    rep.check(model.has("BinaryRegexMatch._convert_raw_regex_unimportant", "RegexCharClass((chr(int(byte.value, base=16)),))"), "C07.f", "BinaryRegexMatch._convert_raw_regex_unimportant", "hex pair -> that byte", "binary regex byte decoding changed")
     rep.check(g.terminal_regex("REGEX_BYTE") == "[0-9a-fA-F]{2}", "C07.f", "grammar:REGEX_BYTE", "two hex digits", "REGEX_BYTE terminal changed")
